@@ -1,0 +1,11 @@
+//go:build !verif
+// +build !verif
+
+package scipipe
+
+// Verification hooks (see verif_hooks_on.go). Without the "verif" build tag
+// they are empty and are inlined away.
+
+func verifPoint(point string, who string, n int) {}
+
+func verifTask(point string, t *Task, n int) {}
